@@ -398,6 +398,27 @@ class FaultRun(object):
         nat = dump.natural(w, raw)
         is_pre, is_twin = self.classify(resp.status, raw, nat)
         k0, kd0 = plan[0]
+        winners = getattr(t, 'flushed_winners', [])
+        if winners and not is_pre:
+            # the rows of the race winner are the environment's doing: the
+            # baseline for "as if never made" is pre-state + winner rows
+            post = w.snapshot()
+            w.restore(self.snap0)
+            side = w._side()
+            for stmt, params, many in winners:
+                try:
+                    if many:
+                        side.executemany(stmt, params)
+                    else:
+                        side.execute(stmt, params)
+                except Exception:
+                    pass
+            side.close()
+            raw_alt = dump.raw(w)
+            w.restore(post)
+            if dump.raw_core(raw) == dump.raw_core(raw_alt) and \
+                    dump.aux_grew_only(raw_alt, raw):
+                is_pre = True
         in_alloc = k0 in self.win_alloc
         in_dup = k0 in self.win_dup
         single = len(plan) == 1 or len(fired) == 1
@@ -452,7 +473,7 @@ class FaultRun(object):
                 # lost the INSERT race to an identical row: the "winner"
                 # (environment) created exactly what the request wanted
                 outcome = 'lost-race-to-identical-winner'
-            elif is_pre and dump.aux_grew_only(self.raw0, raw):
+            elif is_pre and (winners or dump.aux_grew_only(self.raw0, raw)):
                 outcome = 'clean-failure'
                 must = single and (
                     (in_alloc and kd0.startswith('deadlock')) or
